@@ -164,23 +164,25 @@ func C06(c *Ctx) {
 		r.Bad("C06.update-revoke", un, "DelRememberTokens", "-", "UpdatePassword never deletes remember tokens")
 	}
 	for _, s := range CallsTo(upd, fnSave) {
-		q := PathQuery{From: s.(ssa.Instruction), Cut: IsCallTo(fnDelRemember), Goal: func(i ssa.Instruction) bool {
-			ret, ok := i.(*ssa.Return)
-			if !ok || c.isErrorExit(ret) {
+		failedAssert := func(f Fact) bool {
+			rel := f.Rel()
+			if rel.B == nil || rel.Pol {
 				return false
 			}
-			// the failed type-assertion exit is allowed
-			for _, f := range FactsAtInstr(ret) {
-				rel := f.Rel()
-				if rel.B != nil && !rel.Pol {
-					if e, isE := rel.B.(*ssa.Extract); isE {
-						if ta, isTA := e.Tuple.(*ssa.TypeAssert); isTA && ta.CommaOk && strings.HasSuffix(ta.AssertedType.String(), "RememberingServerStorer") {
-							return false
-						}
-					}
-				}
+			e, isE := rel.B.(*ssa.Extract)
+			if !isE {
+				return false
 			}
-			return true
+			ta, isTA := e.Tuple.(*ssa.TypeAssert)
+			return isTA && ta.CommaOk && strings.HasSuffix(ta.AssertedType.String(), "RememberingServerStorer")
+		}
+		q := PathQuery{From: s.(ssa.Instruction), Cut: IsCallTo(fnDelRemember), Goal: func(i ssa.Instruction) bool {
+			ret, ok := i.(*ssa.Return)
+			return ok && !c.isErrorExit(ret)
+		}, Prune: func(a, b *ssa.BasicBlock) bool {
+			// the edge on which the storer turned out not to support remember tokens is allowed
+			f, ok := EdgeFact(a, b)
+			return ok && failedAssert(f)
 		}}
 		if p := q.Find(); p != nil {
 			r.Bad("C06.update-revoke", un, "DelRememberTokens|after Save", posf(c, s), "UpdatePassword can report success without revoking remember tokens although the storer supports it", c.P.DescribePath(p)...)
